@@ -225,4 +225,20 @@ PROPS["C16"] = dict(
     thorough=dict(checks=3000, shards=16, timeout=3000, shrinktime=30),
 )
 
+PROPS["C11"] = dict(
+    pkg="c11",
+    level="exploration",
+    technique="property-based testing (rapid) with a recording afero.Fs at the dependency boundary: the operation trace is compared with the efivarfs contract",
+    level_text=("For generated variable definitions (all predefined ones and arbitrary name/GUID/mask), values (databases, signed-update-like blobs, raw bytes 0..4 KiB), stored masks (equal, superset, subset, disjoint, random), "
+                "file states (present, absent, 0..3 bytes), efivars directories and both APIs (EFIFS via SetFS; legacy attributes.WriteEfivars*/ReadEfivars* via fs.SetFS) a recording file system logs every Fs and File call. "
+                "Write: every call names <dir>/<Name>-<lower-case GUID>, exactly one OpenFile with write-only access, O_CREATE, no O_EXCL, O_APPEND iff APPEND_WRITE, exactly one Write whose buffer is LE32(mask) || encoded value, no other mutating call. "
+                "Read: value = bytes after the first four, attributes = stored mask; ErrIncorrectAttributes and no decoder call when the stored mask lacks a required attribute; errors for absent and short files; no mutating call."),
+    level_note=("Trusts recfs (recording wrapper over afero.MemMapFs). O_TRUNC is neither required nor forbidden (the statement does not mention it). The CheckImmutable()/UnsetImmutable() configuration and the legacy API's immutable-flag probe act on the host "
+                "file system through ioctl and cannot be observed at the afero boundary; generated directories live under a root that does not exist on the host."),
+    rule=("case = (API, write|read, directory, definition, value, stored mask, file state). Non-trivial = write with APPEND_WRITE, or read whose stored mask lacks a required attribute, or legacy API, or non-default directory; distinct by SHA-256 of the case."),
+    assumptions=["afero.MemMapFs behaves like a file system for open/read/write/stat"],
+    quick=dict(checks=20000, shards=2, timeout=600),
+    thorough=dict(checks=200000, shards=16, timeout=3000),
+)
+
 NOT_APPLICABLE = _NA()
